@@ -71,10 +71,11 @@ Pool ==
     \cup { NodeCls(b, s) : b \in (IF Tier = "quick" THEN {"Expression", "Variable", "Sum"} ELSE Bases),
                            s \in {5, 6} }
     \cup (IF Tier = "quick" THEN {} ELSE { NodeCls(b, 4) : b \in Bases })
-\* histories of three dispatches: the quick tier takes the forms A B A and A A B over a small pool
+\* histories of three dispatches: the quick tier takes the forms A B A and A A B over a small pool,
+\* the thorough tier every triple over a wider one
 Pool3 == IF Tier = "quick"
          THEN { NodeCls(b, s) : b \in {"Expression", "Variable", "Sum", "Call"}, s \in {1, 2} }
-         ELSE { c \in Pool : c.shape \in {1, 2, 3, 5} /\ c.base \in {"Expression", "Leaf", "Variable", "Sum", "Call"} }
+         ELSE { NodeCls(b, s) : b \in {"Expression", "Leaf", "Variable", "Sum", "Call"}, s \in {1, 2} }
 
 \* entry points of the dispatches of a history, by position
 Patterns == { << "call", "call", "call" >>, << "fallback", "call", "call" >>, << "call", "fallback", "call" >> }
